@@ -930,6 +930,7 @@ fn run(c: &Case) -> Obs {
         "qry" => run_qry(c),
         "midx" => c19_multi::run_midx(c),
         "mqry" => c19_multi::run_mqry(c),
+        "mqbad" => c19_multi::run_mqbad(c),
         "unm" => c19_multi::run_unm(c),
         "via" => c19_multi::run_via(c),
         "hdr" => c19_multi::run_hdr(c),
